@@ -69,6 +69,32 @@ theorem readLE_ofBytes (b : Bytes) (n : Nat) :
   rw [read_ofBytes]
   by_cases h : b.length < n <;> simp [h, bind, Out.bind]
 
+/-- outcome of `read_be<T>` / `read<T>` on a stream satisfying the invariant -/
+theorem readBE_spec (c : Cursor) (n : Nat) (h : c.Inv) :
+    (∃ v c', c.readBE n = .ok (v, c') ∧ c'.Inv ∧ c'.size = c.size - n ∧ n ≤ c.size ∧ c'.mem = c.mem.drop n
+        ∧ v = Cursor.beNat (c.mem.take n))
+    ∨ (c.readBE n = .throw .malformedPacket ∧ c.size < n) := by
+  rcases Cursor.read_spec c n h with ⟨bs, c', he, hi, _, hs, hn, hb, hm⟩ | ⟨he, hlt⟩
+  · left; exact ⟨Cursor.beNat bs, c', by simp [Cursor.readBE, he, bind, Out.bind], hi, hs, hn, hm, by rw [hb]⟩
+  · right; exact ⟨by simp [Cursor.readBE, he, bind, Out.bind], hlt⟩
+
+theorem readLE_spec (c : Cursor) (n : Nat) (h : c.Inv) :
+    (∃ v c', c.readLE n = .ok (v, c') ∧ c'.Inv ∧ c'.size = c.size - n ∧ n ≤ c.size ∧ c'.mem = c.mem.drop n
+        ∧ v = Cursor.leNat (c.mem.take n))
+    ∨ (c.readLE n = .throw .malformedPacket ∧ c.size < n) := by
+  rcases Cursor.read_spec c n h with ⟨bs, c', he, hi, _, hs, hn, hb, hm⟩ | ⟨he, hlt⟩
+  · left; exact ⟨Cursor.leNat bs, c', by simp [Cursor.readLE, he, bind, Out.bind], hi, hs, hn, hm, by rw [hb]⟩
+  · right; exact ⟨by simp [Cursor.readLE, he, bind, Out.bind], hlt⟩
+
+/-- reading a known prefix off a stream -/
+theorem read_prefix (a m : Bytes) (k : Nat) (h : a.length ≤ k) :
+    (⟨a ++ m, k⟩ : Cursor).read a.length = .ok (a, ⟨m, k - a.length⟩) := by
+  simp [Cursor.read, Cursor.canRead, h]
+
+theorem read_prefix' (a m : Bytes) (k n : Nat) (hn : a.length = n) (h : n ≤ k) :
+    (⟨a ++ m, k⟩ : Cursor).read n = .ok (a, ⟨m, k - n⟩) := by
+  subst hn; exact read_prefix a m k h
+
 theorem toBool_mk (m : Bytes) (k : Nat) : (⟨m, k⟩ : Cursor).toBool = decide (k > 0) := rfl
 
 theorem take_all_drop (b : Bytes) (n : Nat) : (b.drop n).take (b.length - n) = b.drop n := by
